@@ -63,7 +63,14 @@ def handle (name : String) (args impl : List String) : Option (Except String (St
       match impl with
       | ["ok", n, oc] =>
         let alloc := n.toNat?.getD 0
-        let obs := if calib then s!"{modelUnits t bs}/{costBound t bs.length}" else "-"
+        -- correspondence with the cost twin `decodeC` (the function `C20_view` is about): the measured
+        -- allocation stays within memA bytes per unit the twin requests on THIS input, plus a constant
+        -- (unchanged tree, 17448 quick ops: at most 0.72 bytes per unit + 824); beyond it the model
+        -- observation differs from the implementation's line, i.e. the tie is reported broken
+        let twin := memA * modelUnits t bs + 8192
+        let obs := if calib then s!"{modelUnits t bs}/{costBound t bs.length}"
+          else if alloc ≤ twin || oc == "panic" then "-"
+          else s!"ok at-most-{twin}-bytes-by-the-cost-twin {oc}"
         if oc == "panic" then pure (obs, "FAIL:panic")
         else if alloc ≤ memBound t bs.length then pure (obs, "ok")
         else pure (obs, s!"FAIL:allocated-{alloc}-bytes-for-{bs.length}-input-bytes-bound-{memBound t bs.length}-model-units-{modelUnits t bs}")
